@@ -1,0 +1,16 @@
+//go:build verif
+
+// Contracts for the deductive verifier in /verif (govc): trusted summary of the proof-store accessor the ante handler
+// (app/antedl/cosmoslane/993c) calls. Comment-only.
+package keeper
+
+//@ import sdk "github.com/cosmos/cosmos-sdk/types"
+
+// proof.go HasProofExternalOwnedAccount: store.Has(KeyProofExternalOwnedAccountByAddress(accAddr)) — presence of a stored proof
+// per store layer, keyed by the raw address bytes (the key function is injective in the address: prefix ++ address bytes).
+//@ ghost var vauthProof map[int]map[bytes]bool
+//@ func (k Keeper) HasProofExternalOwnedAccount(ctx sdk.Context, accAddr sdk.AccAddress) bool
+//@   assumed
+//@   modifies nothing
+//@   ensures result == vauthProof[layer(ctx)][bytes(accAddr)]
+//@   panics never
